@@ -293,6 +293,15 @@ func (ll *LevelList) NewWithChangeSet(cs *ChangeSet) *LevelList {
 	return nextLL
 }
 
+// KeepFiles calls KeepFile on every table of the list.
+func (ll *LevelList) KeepFiles() {
+	for _, level := range ll.levels {
+		for t := range level.AllTables() {
+			t.KeepFile()
+		}
+	}
+}
+
 func (ll *LevelList) Diagnostics() string {
 	var sb strings.Builder
 	sb.WriteString(fmt.Sprintf("level count: %d", len(ll.levels)))
